@@ -19,6 +19,7 @@ RULE = (
     "(same files and same cell sequence) executed in a fresh process with the decorator replaced by the identity. A memoized call must return the reference value or raise "
     "UndeclaredDependencyError. Non-trivial = at least one applied edit changes the reference result of a root memoized before it; distinct by (program, history)."
     " Round 5: definitions may carry unusual but legal names - a variable, helper or memoized callee named like a builtin (filter, format, input, id, hash, ...) or with a name that makes the qualified name 140-215 characters long."
+    " Round 6: references made from nested scopes (lambda, nested def, comprehension, generator expression), next to a nested function's parameter of the same name, or kept in a local named like the dotted reference's last component; parameters whose default is a module-level list / dict."
 )
 ASSUMPTIONS = [
     "an in-process re-definition of a function that has an alias/wrapper bound to it is delivered by restart instead (the alias would keep the old object alive next to the new one)",
